@@ -39,7 +39,7 @@ def spec_family(s):
 
 def actor_sets():
     """1..6 distinct actor ids; mostly 1..k, sometimes anywhere in 0..30 (0 and 30 are the boundary values of the clock vectors)."""
-    small = st.integers(1, 6).map(lambda k: list(range(1, k + 1)))
+    small = st.sampled_from([3, 2, 4, 5, 6, 3, 4, 1]).map(lambda k: list(range(1, k + 1)))
     anyw = st.lists(st.integers(0, MAX_AID), min_size=1, max_size=6, unique=True)
     edge = st.lists(st.sampled_from([0, 1, 2, 29, MAX_AID]), min_size=2, max_size=5, unique=True)
     return st.one_of(small, small, small, anyw, edge)
@@ -117,11 +117,17 @@ def transition_lists(draw, max_len=40, min_len=1, flavour=None, max_kinds=4):
     if fl in ("real", "mixed"):
         fam = real_specs(actors, draw(st.integers(1, 3)))
         names = draw(st.lists(st.sampled_from(sorted(fam)), min_size=1, max_size=3, unique=True))
-        if draw(st.integers(0, 5)) == 0:
+        if draw(st.integers(0, 5)) == 5:
             names = sorted(fam)
         for nm in names:
             cands.extend(fam[nm])
-    ts = draw(st.lists(st.one_of(*cands), min_size=min_len, max_size=max_len))
+    # explicit length classes: Hypothesis' own list sizes are heavily skewed towards tiny lists
+    cls = draw(st.sampled_from([2, 1, 2, 3, 2, 3, 4, 0]))
+    lo, hi = [(min_len, 3), (2, 6), (5, 15), (12, 30), (25, max_len)][cls]
+    hi = max(min(hi, max_len), min_len)
+    lo = max(min(lo, hi), min_len)
+    n = draw(st.integers(lo, hi))
+    ts = draw(st.lists(st.one_of(*cands), min_size=n, max_size=n))
     return tabs, [list(t) if not isinstance(t, list) else t for t in ts], fl
 
 
@@ -133,7 +139,7 @@ def exec_cases(draw, max_len=40):
     ops = []
     live = 0
     i = 0
-    if draw(st.integers(0, 7)) == 0:
+    if draw(st.integers(0, 9)) == 9:
         m = draw(st.integers(0, min(n, 5)))
         ops.append(["ctor", ts[:m]])
         live = m
@@ -163,7 +169,7 @@ def exec_cases(draw, max_len=40):
     rev = 1 if fl == "syn" else 0
     lim = draw(st.integers(0, max(live, 1)))
     ops.append(["dump", sorted({live, lim}), rev])
-    if draw(st.integers(0, 5)) == 0:
+    if draw(st.integers(0, 7)) == 7:
         k = draw(st.integers(0, live))
         ops.append(["prefix", k])
         ops.append(["dump", [k], rev])
